@@ -259,6 +259,10 @@ def run_check(prop, tiers, assumptions, tier, budget_s=None):
             "comparisons_of_transient_graphs": int(stats["churn_comparisons"]),
             "keys_of_transient_graphs_in_content_bijection":
                 int(stats["churn_keys"]),
+            "wrapped_data_leaf_alternation_rounds":
+                int(stats["leaf_alternations"]),
+            "same_shape_alternation_rounds_at_recycled_addresses":
+                int(stats["same_shape_alternations"]),
             "transient_keys_compared_with_a_peer_building_from_scratch":
                 int(stats["churn_keys_compared_with_peer"]),
         },
